@@ -1,7 +1,7 @@
 (* kind "mrb": same script as harness/jlsrun_k_mrb.h, executed on the extracted MrbModel.
      jlsmodel mrb [orig|fixed]          one result line per program line
-     jlsmodel mrb gen <orig|fixed>      stdin lines "cap=<n> [maxsz=<m>]": prints programs that together
-                                        exercise every transition (all sizes 0..cap+1, peek, pop) of every
+     jlsmodel mrb gen <orig|fixed>      stdin lines "cap=<n> [sizes=a,b,..]": prints programs that together
+                                        exercise every transition (sizes 0..cap+1 or the given ones, peek, pop) of every
                                         state reachable from the initial one in the model (BFS), then a line
                                         "#stats cap=.. states=.. edges=.. lines=.." *)
 open Jlsmodel_ext
@@ -77,10 +77,12 @@ let run_line al line =
 
 (* ---- state-space generation ---- *)
 let op_str = function A n -> Printf.sprintf "a:%d" n | K -> "k" | P -> "p"
-let key s = (i_of_n s.head, i_of_n s.tail, i_of_n s.count,
+(* control state: head, tail and the chain of un-popped messages; `count` is left out (it only
+   feeds `if (count) --count` and would make the defective original's state space infinite) *)
+let key s = (i_of_n s.head, i_of_n s.tail,
              List.map (fun (o, z) -> (i_of_n o, i_of_n z)) (extents s))
 
-let gen al cap maxsz maxlen =
+let gen al cap sizes maxlen =
   let ids = Hashtbl.create 4096 in            (* key -> id *)
   let states = ref [||] in
   let parent = Hashtbl.create 4096 in         (* id -> (parent id, op) *)
@@ -94,7 +96,7 @@ let gen al cap maxsz maxlen =
       Hashtbl.add ids k i; incr nstates;
       if i >= Array.length !states then states := Array.append !states (Array.make (max 1024 i) s);
       (!states).(i) <- s; (i, true) in
-  let all_ops = List.init (maxsz + 1) (fun n -> A n) @ [K; P] in
+  let all_ops = List.map (fun n -> A n) sizes @ [K; P] in
   let nops = List.length all_ops in
   let ops_a = Array.of_list all_ops in
   (* edges.(i).(j) = target id or -1 (fault) *)
@@ -169,8 +171,11 @@ let () = register "mrb" (fun ic ->
     iter_lines ic (fun line ->
       let toks = split_ws line in
       let cap = parse_cap toks in
-      let maxsz = List.fold_left (fun c t -> if String.length t > 6 && String.sub t 0 6 = "maxsz=" then int_of_string (String.sub t 6 (String.length t - 6)) else c) (cap + 1) toks in
-      gen al cap maxsz 600)
+      let sizes = List.fold_left (fun c t ->
+          if String.length t > 6 && String.sub t 0 6 = "sizes=" then
+            List.map int_of_string (String.split_on_char ',' (String.sub t 6 (String.length t - 6)))
+          else c) (List.init (cap + 2) (fun n -> n)) toks in
+      gen al cap sizes 600)
   end else begin
     let al = sel (argn 2) in
     iter_lines ic (fun line -> run_line al line)
